@@ -14,6 +14,7 @@ import math
 import os
 import pathlib
 import pickle
+import random
 
 from .. import fba, gprtree, seams
 from ..core import RunResult, Streams, Violation, digest
@@ -1099,7 +1100,19 @@ class Hist:
         return copy.deepcopy(a.model)
 
     def do_pickle(self, a, op, env):
-        return pickle.loads(pickle.dumps(a.model, protocol=op.get("proto", pickle.HIGHEST_PROTOCOL)))
+        proto = op.get("proto", pickle.HIGHEST_PROTOCOL)
+        rid = op.get("via_reaction")
+        if rid is not None and a.model.reactions.has_id(rid):
+            # a reaction that belongs to the model is the root of the pickle: the whole model travels with it and is the
+            # unpickled reaction's model - a copy like any other
+            clone = pickle.loads(pickle.dumps(a.model.reactions.get_by_id(rid), protocol=proto))
+            self.stats["probe:pickle_rooted_at_member_reaction"] += 1
+            if clone.model is None or not clone.model.reactions.has_id(rid) or clone.model.reactions.get_by_id(rid) is not clone:
+                raise Violation("xref", {"what": "the unpickled reaction is not found under its identifier in its own model",
+                                         "reaction": rid, "index": repr(getattr(clone.model, "reactions", None) and clone.model.reactions._dict)[:200]},
+                                culprit=op)
+            return clone.model
+        return pickle.loads(pickle.dumps(a.model, protocol=proto))
 
     # ---- restart through a durable format (C10/C11): save, lose the live object, load ----
     def _save_load(self, model, op, tag):
@@ -1491,6 +1504,13 @@ def make_swarm(rng, prop, run_cfg):
         "p_invalid": rng.choice([0, 0.05, 0.25]), "solver": rng.choice(["glpk", "glpk", "glpk_exact"]),
         "steps": rng.randint(4, run_cfg.get("max_steps", 30)),
     }
+    if run_cfg.get("deep") and rng.random() < 0.35:
+        # thorough tier: a third of the runs use larger networks and histories twice as long (drawn from a separate stream so that
+        # the other two thirds stay the runs they always were)
+        r2 = random.Random(rng.getrandbits(32))
+        sw["max_mets"], sw["max_rxns"] = r2.randint(5, 8), r2.randint(6, 12)
+        sw["steps"] = r2.randint(20, 2 * run_cfg.get("max_steps", 30))
+        sw["deep"] = True
     weights = {}
     bias = PROP_BIAS.get(prop, {})
     for k, w in ALL_KINDS.items():
@@ -1908,6 +1928,8 @@ def gen_op(rng, H, sw):
         op["what"] = rng.choice(["mets", "rxns"])
     elif k == "pickle":
         op["proto"] = rng.choice([2, 4, 5])
+        if rids and rng.random() < 0.3:
+            op["via_reaction"] = rid()
     elif k == "restart":
         fmts = sw.get("restart_formats", ["pickle", "dict", "json", "yaml"])
         G = [(-1000.0, 1000.0), (-1000.0, 1000.0), (-10.0, 10.0), (0.0, 100.0), (-99999.0, 99999.0)]
